@@ -49,11 +49,14 @@ func checkC03(r *Run) {
 	r.RequireOnSuccess("C03-R3", "coin.Transaction.OutputHours",
 		req("checked fold over all outputs", "forall(i < len($0.Out)): ok(util/mathutil.AddUint64(fold[acc=0; util/mathutil.AddUint64(acc, $0.Out[i].Hours)#0], $0.Out[i].Hours))"))
 	ruleCoinHoursArith(r, "C03-R4")
+	// every transaction of every accepted block: the chain from block execution down to the hours check
+	ruleBlockVerificationChain(r, "C03-R2")
 }
 
 func checkC04(r *Run) {
 	r.Explain = "C04: (R1) every path to chainStore.AddBlock passes the publisher-signature check, except through the exported Unsafe variant whose in-module callers are enumerated; (R2) the header that was signature-checked is the header stored: no store to a BlockHeader field between the check and AddBlock; (R3) verifyBlockHeader succeeds only with seq==head+1, time>head time, prevhash==head hash, bodyhash==hash(body); verifyUxHash; second genesis refused; these are the only rejections; (R4) no error of a db accessor is dropped inside a tx function (a swallowed error would commit a partial state)."
 	r.NotDec = "bolt's rollback itself (trusted); that HashHeader/Body.Hash compute the right bytes (C21)"
+	ruleNoStateBesideTx(r, "C04-R6")
 	// R1
 	r.RequireOnSuccess("C04-R1", "visor.Visor.executeSignedBlock",
 		req("publisher signature verified with the configured key before execution", "ok(coin.SignedBlock.VerifySignature($2, $0.Config.BlockchainPubkey))"),
